@@ -26,6 +26,7 @@ def model():
 
 
 _o = None
+_zen = _azi = None
 
 
 def other():
@@ -108,8 +109,18 @@ def check_record(args):
         if got2.shape != (len(exp2), 3) or any(not close(got2[q][ax_], exp2[q][ax_]) for q in range(len(exp2))):
             out['mism'].append(dict(what='nf-second-request-keeps-first-grid', axis=ax_, shift=st2[ax_] - start[ax_]))
         # ---------------- far field (API): axis 1 = zenith, axis 2 = azimuth
-        zen = Angle(start[0], inc[0], cnt[0])
-        azi = Angle(start[1], inc[1], cnt[1])
+        if C.pick(ax, 0.5, 'c16-angle-reuse'):
+            # the same Angle objects as in earlier requests, given new values (a user refining a sweep)
+            global _zen, _azi
+            if _zen is None:
+                _zen, _azi = Angle(1.0, 2.0, 3), Angle(4.0, 5.0, 2)
+                m.compute_far_field(_zen, _azi)
+            zen, azi = _zen, _azi
+            zen.initial, zen.inc, zen.number = start[0], inc[0], cnt[0]
+            azi.initial, azi.inc, azi.number = start[1], inc[1], cnt[1]
+        else:
+            zen = Angle(start[0], inc[0], cnt[0])
+            azi = Angle(start[1], inc[1], cnt[1])
         m.compute_far_field(zen, azi)
         ff = m.far_field
         zz = np.array(ff.zen).flatten()
@@ -136,7 +147,8 @@ def check_record(args):
         if len(rows) != len(expf):
             out['mism'].append(dict(what='ff-abs-rows', got=len(rows), want=len(expf)))
         # ---------------- through the command line
-        if use_main:
+        # (the command line refuses an increment of 0 with a count above 1 -- a diagnostic, C20 -- the API takes it)
+        if use_main and not any(a['d'] == 0 and a['n'] > 1 for a in ax):
             argv = ['-w', '3,0,0,-2,0.3,0.2,2.5,0.001', '--excitation-pulse=1', '-f', '7',
                     '--near-field=' + ','.join('%.10g' % x for x in start + inc) + ',' +
                     ','.join(str(c) for c in cnt),
